@@ -138,11 +138,12 @@ def check(P, R):
                 return is_head if cp[1] is ast.Eq else (not is_head if cp[1] is ast.NotEq else None)
             if cp and cp[1] is ast.In and isinstance(cp[0], ast.Name) and cp[0].id == verb_p:
                 try:
-                    return ('HEAD' in T.peval(cp[2])) if is_head else None
+                    return ('HEAD' in T.ceval(f, cp[2])) if is_head else None
                 except T.CannotEval:
                     return None
             return None
-        env = {verb_p: VERB}
+        env = dict(T.module_consts(f.module))
+        env[verb_p] = VERB
         try:
             # execute up to the resolve call
             stmts = []
@@ -167,16 +168,22 @@ def check(P, R):
     fors = [n for n in walk_shallow(gi.node) if isinstance(n, ast.For)]
     R.require(len(fors) == 1, 'Route.__getitem__: expected one loop over the candidates')
     lp = fors[0]
-    ok = isinstance(lp.iter, ast.Name) and lp.iter.id == mp
-    if ok:
-        # all defs of the iterated name are the parameter or [param] wrapping
-        hn = g.nodes_for(lp)[0]
-        for d in rd.at(hn, mp):
-            if d.kind == 'param':
+    def in_order(name, at, depth=0):
+        # every definition of the iterated name is the candidates parameter itself, a copy of it, or the one-item list [param]
+        ds = rd.at(at, name)
+        if not ds or depth > 4:
+            return False
+        for d in ds:
+            if d.kind == 'param' and d.name == mp:
                 continue
-            if d.kind == 'assign' and isinstance(d.value, ast.List) and len(d.value.elts) == 1 and src(d.value.elts[0]) == mp:
+            if d.kind == 'assign' and isinstance(d.value, ast.List) and len(d.value.elts) == 1 and isinstance(d.value.elts[0], ast.Name) \
+                    and in_order(d.value.elts[0].id, d.node, depth + 1):
                 continue
-            ok = False
+            if d.kind == 'assign' and isinstance(d.value, ast.Name) and in_order(d.value.id, d.node, depth + 1):
+                continue
+            return False
+        return True
+    ok = isinstance(lp.iter, ast.Name) and in_order(lp.iter.id, g.nodes_for(lp)[0])
     R.ob('C02.b', gi, lp, ok, text=f'for name in {short(lp.iter)}', detail='' if ok else
          'the candidates are not iterated in the order given (sorted / set / reversed / re-bound)')
     rets = [n for st in lp.body for n in walk_shallow(st) if isinstance(n, ast.Return)]
@@ -288,7 +295,7 @@ def check(P, R):
     n404 = n405 = 0
     for r in rets:
         rn = g.node_of_stmt(r)[0]
-        codes = [x.value for x in ast.walk(r.value) if isinstance(x, ast.Constant) and x.value in (404, 405)]
+        codes = [x.value for x in ast.walk(T.expand(rs, r.value, rn)) if isinstance(x, ast.Constant) and x.value in (404, 405)]
         for code in codes:
             if code == 404:
                 n404 += 1
@@ -319,7 +326,7 @@ def check(P, R):
             unp = [s for s in walk_shallow(hd.node) if isinstance(s, ast.Assign) and isinstance(s.targets[0], ast.Tuple) and len(s.targets[0].elts) == 3]
             third = unp[0].targets[0].elts[2].id if unp else None
             first = unp[0].targets[0].elts[0].id if unp else None
-            ok = 'Allow' in kws and src(kws['Allow']) == third and r.exc.args and src(r.exc.args[0]) == first
+            ok = 'Allow' in kws and T.xsrc(hd, kws['Allow'], rn, keep=(third,)) == third and r.exc.args and T.xsrc(hd, r.exc.args[0], rn, keep=(first,)) == first
     R.ob('C02.d', hd, t405[0].ast, ok, text='405 -> raise HTTPError(status, body, Allow=<third element>)', detail='' if ok else
          'the 405 answer does not carry the Allow header built by the router')
     raise404 = [r for r in raises if not hd.cfg.edge_dominates(t405[0], 'true', hd.cfg.node_of_stmt(r)[0])]
@@ -337,10 +344,12 @@ def check(P, R):
              why='405 for a path that matches a route; never 404', key_extra=c.name)
 
     # ---- e
-    r405 = [r for r in rets if any(isinstance(x, ast.Constant) and x.value == 405 for x in ast.walk(r.value))]
-    for r in r405:
+    for r in rets:
         rn = g.node_of_stmt(r)[0]
-        third = r.value.elts[1].elts[2] if isinstance(r.value, ast.Tuple) and isinstance(r.value.elts[1], (ast.List, ast.Tuple)) and len(r.value.elts[1].elts) == 3 else None
+        xv = T.expand(rs, r.value, rn)
+        if not any(isinstance(x, ast.Constant) and x.value == 405 for x in ast.walk(xv)):
+            continue
+        third = xv.elts[1].elts[2] if isinstance(xv, ast.Tuple) and isinstance(xv.elts[1], (ast.List, ast.Tuple)) and len(xv.elts[1].elts) == 3 else None
         R.require(third is not None, 'resolve: 405 triple not recognised')
         ok, det = allow_from_table(P, rs, third, rn, route_name)
         R.ob('C02.e', rs, r, ok, text=f'Allow = {short(third)}', detail=det,
